@@ -6,6 +6,13 @@ MODULE = "PestModel.Thm.C01"
 DRV, MODE = "drv_sem", "grammar"
 LISTER_ID = "C05-lister-not-preserving"
 WSLEAK_ID = "C01-whitespace-stack-leak"
+TAG_ID = "C01-tag-lands-on-previous-pair"
+
+
+def strip_tags(forest):
+    """`(rule start end tag …)` with every tag replaced by `_`"""
+    import re
+    return re.sub(r"\((\S+) (\d+) (\d+) [0-9a-f_]+", r"(\1 \2 \3 _", forest)
 
 
 def ws_modifies_stack(op):
@@ -32,6 +39,7 @@ def run(ctx):
     allcs, stats, found_input = [], {}, False
     lister_known = ctx.match_known(lambda k: k["id"] == LISTER_ID) or \
         next((k for k in load_known() if k.get("id") == LISTER_ID and k.get("status") == "known"), None)
+    tag_known = next((k for k in load_known() if k.get("id") == TAG_ID and k.get("status") == "known"), None)
     wsleak_known = next((k for k in load_known() if k.get("id") == WSLEAK_ID and k.get("status") == "known"), None)
     for fs in ("default", "extras"):
         ok, out, bindir, _ = cargo_build(fs, [DRV])
@@ -63,7 +71,10 @@ def run(ctx):
                 for j, (x, y) in enumerate(zip(a, b)):
                     if x != y:
                         # the disagreement disappears when the `list` pass is left out (hook H2): the lister finding
-                        if wsleak_known and ws_modifies_stack(op):
+                        if tag_known and ("(tag (opt" in op or "(tag (rep" in op) and strip_tags(x) == strip_tags(y):
+                            # same pairs and spans, only the tags differ, in a grammar that tags an optional / repeated expression
+                            ctx.known_finding(TAG_ID, "with grammar-extras a tag on an expression that emitted no pair lands on the previous pair (tag_node tags the last token of the queue): x = { \"a\" }  y = { \"b\" }  r = { x ~ #t = y? } on \"a\" tags the pair of x")
+                        elif wsleak_known and ws_modifies_stack(op):
                             ctx.known_finding(WSLEAK_ID, "a WHITESPACE/COMMENT rule that pops the stack and then fails leaves the stack popped (implicit skips are not wrapped by the restorer): WHITESPACE = _{ POP }, r = { PUSH(\"a\") ~ \"b\" ~ PEEK } panics on \"aba\"")
                         elif lister_known and nolist.get(j) == y:
                             ctx.known_finding(LISTER_ID, "optimizer `list` pass rewrites (a ~ b)* ~ a into a ~ (b ~ a)*, which changes the language (e.g. accepts a prefix of \"abab\"); Vm::parse then differs from the documented semantics")
